@@ -3,6 +3,7 @@
 package engines
 
 import (
+	"context"
 	"errors"
 	"fmt"
 	"sort"
@@ -54,6 +55,8 @@ func kvVal(m nodeenrollment.MessageWithId) string {
 
 type kvIn struct {
 	Op, Type, ID, Val string
+	// Cancel: the caller's context is already cancelled when the operation is made
+	Cancel bool
 }
 
 type kvOut struct {
@@ -66,6 +69,12 @@ type kvOut struct {
 
 func kvApply(st nodeenrollment.Storage, in kvIn) kvOut {
 	var out kvOut
+	contextBG := contextBG
+	if in.Cancel {
+		c, cancel := context.WithCancel(contextBG)
+		cancel()
+		contextBG = c
+	}
 	switch in.Op {
 	case "store":
 		err := st.Store(contextBG, kvMsg(in.Type, in.ID, in.Val))
@@ -133,6 +142,11 @@ func kvDec(e string) kvState {
 // kvStep: is out a legal result of in on state, and what is the next state? storeOnce selects the test back end's extra rule.
 func kvStep(s kvState, in kvIn, out kvOut, storeOnce bool) (bool, kvState) {
 	key := in.Type + "/" + in.ID
+	if in.Cancel && out.Err && !out.Dup && !out.NotFound {
+		// an operation made with a cancelled context may be refused - but an operation that reports failure has no effect;
+		// if the back end ignores the context instead, the ordinary rules below apply
+		return true, s
+	}
 	switch in.Op {
 	case "store":
 		if storeOnce && in.Type == "NodeInformation" {
@@ -222,6 +236,9 @@ func propC19(r *kernel.Run) {
 			in.Op = "list"
 			in.ID = ""
 		}
+		if tp.Draw(10) == 0 {
+			in.Cancel = true
+		}
 		return in
 	}
 	r.Count("cfg.backend."+backend, 1)
@@ -262,7 +279,13 @@ func propC19(r *kernel.Run) {
 			out := kvApply(st, in)
 			ok, next := kvStep(model, in, out, storeOnce)
 			r.Count("ops."+in.Op, 1)
-			hist = append(hist, fmt.Sprintf("%s %s/%s %s -> %+v", in.Op, in.Type, in.ID, in.Val, out))
+			if in.Cancel {
+				r.Count("fault.cancelled_context", 1)
+				if out.Err {
+					r.Count("probe.cancelled_operation_refused", 1)
+				}
+			}
+			hist = append(hist, fmt.Sprintf("%s%s %s/%s %s -> %+v", in.Op, map[bool]string{true: "(cancelled ctx)"}[in.Cancel], in.Type, in.ID, in.Val, out))
 			if !ok {
 				tail := hist
 				if len(tail) > 8 {
